@@ -211,6 +211,9 @@ def parse_operand(s):
             return Operand('move' if kw == 'move ' else 'copy', place=parse_place(s[len(kw):]))
     if s.startswith('const '):
         return Operand('const', const=s[len('const '):].strip())
+    if re.match(r'^[A-Za-z_<][\w:<>, &\'\[\]]*::\w+(::<.*>)?$', s):
+        # a function item passed by name (zero-sized value): `path::to::function`
+        return Operand('const', const=s)
     raise MirError(f'cannot parse operand {s!r}')
 
 
